@@ -69,12 +69,18 @@ Proof.
 Qed.
 
 (* so the whole-program answer is fuel-independent too *)
-Theorem run_program_stable : forall n m p,
-  (n <= m)%nat -> snd (run_program n p) <> FOutOfFuel -> run_program m p = run_program n p.
+Theorem run_program_cv_stable : forall n m p,
+  (n <= m)%nat -> snd (fst (run_program_cv n p)) <> FOutOfFuel -> run_program_cv m p = run_program_cv n p.
 Proof.
-  intros n m p Hle H. unfold run_program in *.
+  intros n m p Hle H. unfold run_program_cv in *.
   set (s0 := inst_vars _ _ _) in *.
   assert (Hn : run n (TList (mkctx 0%nat (WRef 0)) p) s0 <> Fuel).
   { intros E. rewrite E in H. apply H. reflexivity. }
   rewrite (run_stable n m _ _ Hle Hn). reflexivity.
+Qed.
+
+Theorem run_program_stable : forall n m p,
+  (n <= m)%nat -> snd (run_program n p) <> FOutOfFuel -> run_program m p = run_program n p.
+Proof.
+  intros n m p Hle H. unfold run_program in *. rewrite (run_program_cv_stable n m p Hle H). reflexivity.
 Qed.
